@@ -261,7 +261,7 @@ func Run(run *kernel.Run, prop string) {
 	for _, x := range weights {
 		total += x
 	}
-	for w.step < maxSteps && (w.t.Choose("ops", "more", 24) != 0 || w.step == 0) {
+	for w.step < maxSteps*kernel.Depth && (w.t.Choose("ops", "more", 24*kernel.Depth) != 0 || w.step == 0) {
 		w.step++
 		c := w.t.Choose("ops", "kind", total)
 		k := 0
